@@ -14,7 +14,9 @@ import (
 	"log"
 	"os"
 	"runtime"
+	"runtime/debug"
 	"sort"
+	"sync"
 
 	"github.com/brocaar/lorawan"
 
@@ -23,6 +25,25 @@ import (
 	"verif/worlds"
 	_ "verif/worlds/all"
 )
+
+var runsSinceGC int
+
+// gcBetweenRuns collects garbage between runs only (every 8 runs, or earlier
+// when the heap has grown).
+func gcBetweenRuns() {
+	runsSinceGC++
+	if runsSinceGC >= 8 {
+		runsSinceGC = 0
+		runtime.GC()
+		return
+	}
+	var ms runtime.MemStats
+	runtime.ReadMemStats(&ms)
+	if ms.HeapAlloc > 256<<20 {
+		runsSinceGC = 0
+		runtime.GC()
+	}
+}
 
 type tapeFile struct {
 	World string   `json:"world"`
@@ -52,6 +73,10 @@ func main() {
 
 	log.SetOutput(io.Discard) // the library logs decode warnings to the global logger
 	sim.ResetHooks = append(sim.ResetHooks, lorawan.VerifResetRegistry)
+	// pools start empty in every run and the collector never runs inside a
+	// run (see check.sh: sync.Pool seam)
+	debug.SetGCPercent(-1)
+	sim.ResetHooks = append(sim.ResetHooks, sync.VerifFlushPools, gcBetweenRuns)
 
 	if *list {
 		var names []string
